@@ -383,7 +383,12 @@ def unit_cells(tier, seed, big=False):
            {"family": "example", "name": "tri_non_lattice", "args": [[2, 1]]},
            {"family": "example", "name": "square_lattice", "args": [2, 3]},
            {"family": "example", "name": "star_lattice_sheared"},
-           {"family": "example", "name": "multi_graph"}]
+           {"family": "example", "name": "multi_graph"},
+           # brick cells: edges leaving the cell through a CORNER (crossing non-zero in x and y), both signs
+           {"family": "raw", "name": "brick", "positions": [[0.2, 0.2], [0.8, 0.8]], "edges": [[0, 1], [1, 0], [1, 0]],
+            "crossing": [[0, 0], [1, 1], [0, 1]]},
+           {"family": "raw", "name": "brick_mixed", "positions": [[0.2, 0.7], [0.7, 0.2], [0.5, 0.5]],
+            "edges": [[0, 1], [1, 0], [2, 0], [1, 2], [2, 2]], "crossing": [[1, -1], [-1, 1], [0, 0], [-1, -1], [1, 1]]}]
     if tier != "quick" or big:
         out += [{"family": "example", "name": "hex_square_oct_lattice", "args": [2]},
                 {"family": "example", "name": "honeycomb_lattice", "args": [3]},
@@ -460,6 +465,7 @@ def evaluate_tilings(ctx, cells, sizes, label, census_budget):
         res.count(fam, nontriv)
         res.hist["tile/nx!=ny"] = res.hist.get("tile/nx!=ny", 0) + (nx != ny)
         res.hist["tile/multigraph-cell"] = res.hist.get("tile/multigraph-cell", 0) + bool(multigraph)
+        res.hist["tile/corner-crossing-cell"] = res.hist.get("tile/corner-crossing-cell", 0) + bool(len(E) and np.any((C[:, 0] != 0) & (C[:, 1] != 0)))
         try:
             lat = eg.tile_unit_cell(P.copy(), E.copy(), C.copy(), [nx, ny])
             if nx == ny:
@@ -545,7 +551,16 @@ def evaluate_tilings(ctx, cells, sizes, label, census_budget):
 # ------------------------------------------------------------------ translator validation
 def validate_translator(ctx, big=False):
     res = ctx.res
-    fns = tiling_helpers.python_functions()
+    try:
+        fns = tiling_helpers.python_functions()
+    except Exception as e:
+        # The translator failed closed on today's source (the runner reports it as a broken obligation from
+        # build.prepare).  S/K must go on: the model is the one built from the last successful translation, and
+        # it is compared with the importable module-level helpers, so the search can pin a concrete input.
+        res.extra["translator_error"] = str(e)[-400:]
+        res.skip("translator-grid: nested closures not comparable (translator failed closed)")
+        fns = {"py_next_cell_number": eg._next_cell_number, "py_crossing": eg._crossing,
+               "honeycomb_next_direction": None, "hso_next_direction": None}
     rng_sizes = [s for s in range(-3, 6 if not big else 8) if s != 0]
     shifts = [(a, b) for a in range(-2, 3) for b in range(-2, 3)]
     cases = []
@@ -560,9 +575,10 @@ def validate_translator(ctx, big=False):
     bad = 0
     for (a, b, n, sh), o in zip(cases, outs):
         want = {"ncn": [fns["py_next_cell_number"](a, b, n, list(sh))],
-                "cr": [int(x) for x in fns["py_crossing"](a, b, n, list(sh))],
-                "hnd": [fns["honeycomb_next_direction"](a, b, n, list(sh))],
-                "hso": [fns["hso_next_direction"](a, n, list(sh))]}
+                "cr": [int(x) for x in fns["py_crossing"](a, b, n, list(sh))]}
+        if fns["honeycomb_next_direction"] is not None:
+            want["hnd"] = [fns["honeycomb_next_direction"](a, b, n, list(sh))]
+            want["hso"] = [fns["hso_next_direction"](a, n, list(sh))]
         got = {k: [unhx(x) for x in o[k]] for k in want}
         if got != want:
             bad += 1
